@@ -29,6 +29,7 @@ mod reflex;
 mod runner;
 mod syncases;
 mod synx;
+mod vocab;
 
 use runner::{Ctx, Tier};
 use std::time::Instant;
@@ -40,6 +41,12 @@ fn main() {
         std::process::exit(2);
     }
     let id = args[1].clone();
+    if id == "vocab" {
+        let v = vocab::get();
+        println!("idents {} dotted {} numbers {} thresholds {} words {} chars {}", v.idents.len(), v.dotted.len(), v.numbers.len(), v.thresholds.len(), v.words.len(), v.chars.len());
+        println!("dotted: {:?}\nnumbers: {:?}\nchars: {:?}\nidents: {:?}", v.dotted, v.numbers, v.chars, v.idents);
+        std::process::exit(0);
+    }
     if id == "C11-worker" {
         std::process::exit(c11::worker_main());
     }
